@@ -27,13 +27,31 @@ def main():
         out["tests"] = t.stdout.strip()
         demo = [f for f in os.listdir(d) if f.startswith("demo")]
         if demo:
-            r = sh(f"cd /repo && PYTHONPATH=/repo timeout 600 /venv/bin/python {d}/{demo[0]} 2>&1 | tail -3")
-            out["demo_with_patch"] = r.stdout.strip()[-300:]
+            r = sh(f"cd /repo && PYTHONPATH=/repo timeout 600 /venv/bin/python {d}/{demo[0]} > /verif/.work/demo.out 2>&1; echo rc=$?; tail -3 /verif/.work/demo.out")
+            o_ = r.stdout.strip(); out["demo_with_patch"] = o_.split("\n")[0] + " | " + o_[-300:]
         for pid in pids:
             t0 = time.time()
             r = sh(f"cd {V} && timeout 3000 /venv/bin/python check.py {pid} --tier {tier}")
             viol = [l for l in r.stdout.splitlines() if l.startswith("VIOLATION")]
-            out[pid] = dict(exit=r.returncode, violations=viol[:3], wall=round(time.time() - t0, 1),
+            how = {}
+            try:
+                ev = json.load(open(os.path.join(V, "evidence", pid + ".json")))
+                cov = ev.get("coverage", ev)
+                how["proof_obligations_broken"] = int(cov.get("obligations", 0)) - int(cov.get("discharged", 0))
+                bad = {}
+                for cn, cs in (cov.get("correspondence") or {}).items():
+                    if isinstance(cs, dict):
+                        n = cs.get("cases", cs.get("histories"))
+                        if "agree" in cs and n is not None and cs["agree"] != n:
+                            bad[cn] = f"{n - cs['agree']}/{n} runs disagree"
+                        elif cs.get("disagreements"):
+                            bad[cn] = f"{cs['disagreements']} disagreements"
+                how["correspondence_broken"] = bad
+                how["failing_inputs_found_by_search"] = int(ev.get("violations", 0)) if "violations" in ev else None
+            except Exception as e:  # noqa
+                how["error"] = str(e)
+            no_input = any("no-failing-input-found" in v for v in viol)
+            out[pid] = dict(exit=r.returncode, violations=viol[:3], wall=round(time.time() - t0, 1), how=how, no_failing_input_found=no_input,
                             what=[l for l in r.stdout.splitlines() if l and not l.startswith("VIOLATION") and not l.startswith("[")][:3])
     finally:
         sh("git -C /repo checkout -- . && git -C /repo clean -fdq")
@@ -43,6 +61,40 @@ def main():
             shutil.rmtree(os.path.join(V, "replays"), ignore_errors=True); shutil.copytree(os.path.join(bak, "replays"), os.path.join(V, "replays"))
         shutil.rmtree(bak, ignore_errors=True)
         sh(f"cd {V} && timeout 3000 /venv/bin/python check.py --setup")   # regenerate the model from the restored tree
+    demo = [f for f in os.listdir(d) if f.startswith("demo")]
+    if demo:
+        r = sh(f"cd /repo && PYTHONPATH=/repo timeout 600 /venv/bin/python {d}/{demo[0]} > /verif/.work/demo.out 2>&1; echo rc=$?; tail -2 /verif/.work/demo.out")
+        o_ = r.stdout.strip(); out["demo_without_patch"] = o_.split("\n")[0] + " | " + o_[-200:]
+    # meta.json: which property the change breaks, what it needs to manifest, what was run and what caught it
+    agent = {}
+    if os.path.exists(os.path.join(d, "meta_agent.json")):
+        try:
+            agent = json.load(open(os.path.join(d, "meta_agent.json")))
+        except Exception:
+            agent = {}
+    meta_p = os.path.join(d, "meta.json")
+    meta = json.load(open(meta_p)) if os.path.exists(meta_p) else {}
+    meta.update(
+        property=agent.get("property") or meta.get("property") or os.path.basename(d).split("-")[0],
+        change=agent.get("summary") or agent.get("description") or agent.get("what") or meta.get("change", ""),
+        needs_to_manifest=agent.get("needs") or agent.get("needs_to_manifest") or agent.get("trigger") or meta.get("needs_to_manifest", ""),
+        files=agent.get("files") or meta.get("files", []),
+        origin="written by a sub-agent that saw only the property text and a scratch worktree of /repo; confirmed here",
+    )
+    ran = meta.setdefault("ran", {})
+    ran["existing test suite with the change applied"] = out.get("tests")
+    ran["demo.py with the change applied (expected to fail)"] = out.get("demo_with_patch")
+    ran["demo.py on the unchanged tree (expected to pass)"] = out.get("demo_without_patch")
+    checks = meta.setdefault("checks", {})
+    for pid in pids:
+        o = out[pid]
+        checks[pid + ":" + tier] = dict(command=f"python check.py {pid} --tier {tier}", exit=o["exit"], violation_lines=len(o["violations"]),
+                                        reported=[w[:300] for w in o["what"]], wall_s=o["wall"], detected=bool(o["exit"] != 0 and o["violations"]),
+                                        how=o.get("how"), violation_without_concrete_input=o.get("no_failing_input_found"))
+    meta["caught_by"] = sorted(k for k, v in checks.items() if v.get("detected"))
+    with open(meta_p, "w") as fh:
+        json.dump(meta, fh, indent=1)
+        fh.write("\n")
     print(json.dumps(out, indent=1)[:4000])
 
 
